@@ -281,6 +281,56 @@ func runDeductive(L *Loaded, db *ContractDB, rep *Report) {
 			jobs = append(jobs, job{lm: lm})
 		}
 	}
+	// A precondition is an obligation only at call sites inside functions verified under the same property;
+	// everywhere else it is an assumption: say so in the evidence.
+	{
+		keyOf := map[*ssa.Function]string{}
+		for k, f := range L.Funcs {
+			keyOf[f] = k
+		}
+		verified := map[*ssa.Function]bool{}
+		for _, j := range jobs {
+			if j.fn != nil {
+				verified[j.fn] = true
+			}
+		}
+		for _, j := range jobs {
+			if j.fn == nil || len(j.fc.Requires) == 0 {
+				continue
+			}
+			var unchecked []string
+			ncall := 0
+			for _, caller := range L.AllFns {
+				for _, b := range caller.Blocks {
+					for _, in := range b.Instrs {
+						hit := false
+						if ci, ok := in.(ssa.CallInstruction); ok && ci.Common().StaticCallee() == j.fn {
+							hit = true
+						}
+						if mc, ok := in.(*ssa.MakeClosure); ok && mc.Fn == ssa.Value(j.fn) {
+							hit = true
+						}
+						if !hit {
+							continue
+						}
+						ncall++
+						if !verified[caller] {
+							unchecked = append(unchecked, shortKey(keyOf[caller]))
+						}
+					}
+				}
+			}
+			sort.Strings(unchecked)
+			unchecked = compactStrings(unchecked)
+			name := shortKey(keyOf[j.fn])
+			switch {
+			case ncall == 0:
+				rep.Assum["precondition of "+name+" is assumed (no static call site in the module: entry point or called dynamically)"] = true
+			case len(unchecked) > 0:
+				rep.Assum["precondition of "+name+" is assumed at its call sites in functions not verified under this property: "+strings.Join(unchecked, ", ")] = true
+			}
+		}
+	}
 	results := make([]*FuncResult, len(jobs))
 	var wg sync.WaitGroup
 	sem := make(chan struct{}, 8)
@@ -340,6 +390,16 @@ func runDeductive(L *Loaded, db *ContractDB, rep *Report) {
 	}
 	defer os.RemoveAll(scratch)
 	discharge(rep.Obs, scratch, rep.Tier, rep.Seed)
+}
+
+func compactStrings(a []string) []string {
+	var out []string
+	for i, s := range a {
+		if i == 0 || s != a[i-1] {
+			out = append(out, s)
+		}
+	}
+	return out
 }
 
 func scratchBase() string {
